@@ -12,6 +12,7 @@
 #include "simproxy.h"
 #include "colvars_memstream.h"
 #include "colvarcomp.h"
+#include "depsrec.h"
 
 using json = nlohmann::json;
 
@@ -153,6 +154,22 @@ static json handle(json const &cmd)
     r["rc"] = err;
     return r;
   }
+#ifdef COLVARS_VERIF
+  if (op == "depsrec") {
+    depsrec::get().install();
+    depsrec::get().on = cmd.value("on", true);
+    r["rc"] = 0;
+    return r;
+  }
+  if (op == "depsevents") {
+    json l = json::array();
+    for (auto const &e : depsrec::get().events) l.push_back(json::parse(e));
+    depsrec::get().events.clear();
+    r["events"] = l;
+    r["tables"] = depsrec::get().tables;
+    return r;
+  }
+#endif
   if (op == "quit") { if (P) { delete P; P = nullptr; } r["rc"] = 0; return r; }
   if (op == "mkdir") {
     std::string d = cmd.at("dir");
